@@ -328,3 +328,9 @@ func (s *vfSched) Drain(tasks []*vfTask) {
 		time.Sleep(time.Second)
 	}
 }
+
+func (s *vfSched) isActive() bool {
+	s.mu.Lock()
+	defer s.mu.Unlock()
+	return s.active
+}
